@@ -475,3 +475,36 @@ func corruptOne(m map[string]any) string {
 	}
 	return ""
 }
+
+// RunApalache checks an invariant with apalache-mc (bounded / inductive checks over typed specifications); the module
+// is copied to a scratch directory first (Apalache writes _apalache-out next to it).  ok = "The outcome is: NoError".
+func RunApalache(module, init, inv string, length int, timeout time.Duration) (ok bool, out string, err error) {
+	dir, err := os.MkdirTemp("", "vapa")
+	if err != nil {
+		return false, "", err
+	}
+	defer os.RemoveAll(dir)
+	src, err := os.ReadFile(filepath.Join(Root(), "spec", module+".tla"))
+	if err != nil {
+		return false, "", err
+	}
+	if err := os.WriteFile(filepath.Join(dir, module+".tla"), src, 0o644); err != nil {
+		return false, "", err
+	}
+	ctx, cancel := context.WithTimeout(context.Background(), timeout)
+	defer cancel()
+	cmd := exec.CommandContext(ctx, "apalache-mc", "check", "--init="+init, "--inv="+inv, fmt.Sprintf("--length=%d", length), module+".tla")
+	cmd.Dir = dir
+	bs, runErr := cmd.CombinedOutput()
+	out = string(bs)
+	if ctx.Err() != nil {
+		return false, out, fmt.Errorf("apalache-mc timed out")
+	}
+	if strings.Contains(out, "The outcome is: NoError") {
+		return true, out, nil
+	}
+	if strings.Contains(out, "The outcome is: Error") {
+		return false, out, nil
+	}
+	return false, out, fmt.Errorf("apalache-mc: %v: %s", runErr, tail(out, 800))
+}
